@@ -147,3 +147,40 @@ package kgo
 //@ func (sc *shareConsumer) leave(ctx context.Context)
 //@   prop C12
 //@   site call batchAckStates#0 assert [unacknowledged-released-on-leave] arg0 == sc && arg1 == sc.lastPolled && arg2 == 2
+
+// ---- C12 (d): FlushAcks returns only after the callbacks of all earlier acknowledgements have run ----
+// sc.pendingAcks counts the user acknowledgements queued and not yet reported. It is raised under the cursor's
+// ackMu together with the append to the cursor's queue (appendAck: by one; enqueueAllAcks: by the number of
+// entries appended), and it is lowered in exactly one place: drainCallbacks, after the user's callback for that
+// entry has returned. FlushAcks' waiter leaves its loop only with the counter at zero or on cancellation.
+// (What is not decided here: that every queued entry eventually reaches enqueueCallback - a whole-program path
+// property over the source loops.)
+//@ audit calls (*shareConsumer).subtractPendingAcks except (*shareConsumer).drainCallbacks assert [counter-lowered-only-by-the-callback-drain] false
+//@   prop C12
+
+//@ func (sc *shareConsumer) subtractPendingAcks(n int64)
+//@   prop C12
+//@   site call Add#0 assert [lowers-by-n] n > 0 && arg1 == -n
+//@   site call Broadcast#0 assert [waiters-woken-only-at-zero] $Add0 == 0
+//@   ensures [counted] n > 0 ==> reached($Add0)
+//@   ensures [zero-wakes-flush] (n > 0 && $Add0 == 0) ==> reached($Broadcast0)
+
+//@ func (sc *shareConsumer) drainCallbacks(entry shareCallbackEntry)
+//@   prop C12
+//@   site call subtractPendingAcks#0 assert [callback-runs-before-the-count-drops] arg0 == sc && arg1 == entry.nAcks && ((cb != nil && len(entry.results) > 0) ==> reached($call0))
+//@   site call shareAckCallback#0 assert [callback-gets-this-entry] arg1 == entry.results
+
+//@ func (st *shareAckState) appendAck()
+//@   prop C12
+//@   site call Add#0 assert [one-queued-one-counted] arg1 == 1 && len(c.pendingAcks) >= 1 && c.pendingAcks[len(c.pendingAcks)-1] == st
+//@   site call append#0 assert [queued-under-the-open-cursor] !c.closed
+//@   site call Unlock#1 assert [counted-before-the-queue-is-released] reached($Add0)
+
+//@ func (sc *shareConsumer) enqueueAllAcks(byCursor cursorsAcks)
+//@   prop C12
+//@   site call Add#0 assert [counted-as-many-as-queued] arg1 == int64(len(entries)) && !cursor.closed
+//@   site call Unlock#1 assert [counted-before-the-queue-is-released] reached($Add0)
+
+//@ func (cl *Client) FlushAcks$2()
+//@   prop C12
+//@   loop 0 exit [flush-ends-only-drained-or-cancelled] *quit || $Load0 <= 0
